@@ -142,6 +142,18 @@ CHECKS["C04"] = dict(
    design="5/C04", technique="Coq totality corollaries over the translated concrete backend; boundary-constant program fuzzing with class correspondence",
    note="Trusted: Coq kernel; tools/py2coq.py. Floats, strings and NaN/metacharacter inputs of this property are not covered.")
 
+CHECKS["C07"] = dict(
+   text="Machine-checked proof (Coq) over Model/Annot.v -- the abstraction of an expression to the annotation sets that Base.__new__ maintains "
+        "and operations._handle_annotations reads, for every set of annotations and every argument list: when a rewrite or fold is accepted the "
+        "result is the simplified expression with annotations only added, every non-eliminatable non-relocatable annotation of every argument (at "
+        "any depth) is still carried inside it, and every relocatable annotation of every argument is on it (C07_handle); when it is refused the "
+        "plain node keeps its arguments (C07_build). Tie: every real _handle_annotations call made while building annotated programs is "
+        "intercepted at run time and replayed on the extracted model; cached annotation sets are recomputed from the tree. Which rewrites the "
+        "simplifiers propose, explicit simplification through Z3 and the solvers' handling of SimplificationAvoidanceAnnotation are tested only.",
+   design="5/C07", technique="Coq proof over an abstract annotation-set model; interception-and-replay correspondence; annotated program fuzzing",
+   note="Trusted: Coq kernel; Model/Annot.v hand-written; default Annotation.relocate. Three defects repaired (annotate() forgot inherited pinned "
+        "annotations; If shortcuts; extract_simplifier).")
+
 REASONS = {}
 DEFAULT_REASON = "not claimed yet: its Coq model and correspondence harness are not built in this snapshot (see DESIGN.md section 10 for the order); no other technique is substituted"
 
